@@ -119,6 +119,24 @@ def worker_harness(ctx):
 
 
 # ---------------------------------------------------------------------------
+class SKey(SInt):
+    """Symbolic job key that also survives being printed / sliced (commit[:8])."""
+    __slots__ = ()
+
+    def __getitem__(self, k):
+        return self
+
+    def __str__(self):
+        return 'key<%s>' % self.t
+    __repr__ = __str__
+
+    def __format__(self, spec):
+        return str(self)
+
+    def __hash__(self):
+        return 0
+
+
 class IQueue(queue.Queue):
     """queue.Queue whose `queue` attribute (read by put_job) is an interference point."""
     _env = None
@@ -134,15 +152,15 @@ class IQueue(queue.Queue):
         self._q = v
 
 
-def put_harness(npend, twin=False, mutate=None):
+def put_harness(npend, twin=False, mutate=None, maxsteps=2):
     def h(ctx):
         from bert_e.bert_e import BertE
         from bert_e.job import PullRequestJob, CommitJob
         import bert_e.bert_e as BE
         common.silence(BE)
-        K = lambda n: SInt(z3.Int(n))                        # noqa
+        K = lambda n: SKey(z3.Int(n))                        # noqa
         repo = types.SimpleNamespace(full_name='owner/repo')
-        state = {'steps': 0}
+        state = {'steps': 0, 'calls': 0, 'schedule': []}
         consumed = []            # keys whose evaluation started during the step
         added = []               # keys put by another webhook thread during the step
 
@@ -155,25 +173,29 @@ def put_harness(npend, twin=False, mutate=None):
                 env('compare pull_request.id')
                 return self._key
 
+        bert = make_berte()
+        bert.project_repo = repo
+        bert.settings['pull_request_base_url'] = 'http://x/{pr_id}'
+        bert.settings['commit_base_url'] = 'http://x/{commit_id}'
+
         def mkjob(key, kind):
+            # real constructors: the jobs are complete objects
             if kind == 0:
-                j = PullRequestJob.__new__(PullRequestJob)
-                j.pull_request = PR(key)
+                j = PullRequestJob(bert_e=bert, pull_request=PR(key))
             else:
-                j = CommitJob.__new__(CommitJob)
-                j.commit = key
-            j.project_repo = repo
+                j = CommitJob(bert_e=bert, commit=key)
             j.key = key
             j.kind = kind
             return j
-        bert = make_berte()
         bert.task_queue = IQueue()
         # pre-state: npend pending jobs with symbolic keys and kinds
         pend = []
+        pend_before = []
         for i in range(npend):
             kind = ctx.choose('pkind%d' % i, 2)
             j = mkjob(K('p%d' % i), kind)
             pend.append(j)
+            pend_before.append((j.key.t, kind))
             bert.task_queue._q.append(j)
         # ghost: one owed key (accepted event whose evaluation has not started)
         owed_k = z3.Int('owed_k')
@@ -191,19 +213,22 @@ def put_harness(npend, twin=False, mutate=None):
         ctx.assume(z3.Implies(has_owed, covered(owed_k, owed_kind)))
 
         def env(where):
-            if state['steps'] >= 2:
+            state['calls'] += 1
+            if state['steps'] >= maxsteps:
                 return
             c = ctx.choose('interference', 3)
             if c == 0:
                 return
             state['steps'] += 1
             if c == 1:
+                state['schedule'].append((state['calls'], 'get', None, None))
                 if bert.task_queue._q:
                     j = bert.task_queue._q.popleft()       # worker starts the head job
                     consumed.append((j.key.t, j.kind))
             else:
                 kind = ctx.choose('okind', 2)
                 j = mkjob(K('other%d' % state['steps']), kind)
+                state['schedule'].append((state['calls'], 'put', j.key.t, kind))
                 bert.task_queue._q.append(j)              # another thread's put
         bert.task_queue._env = env
         newkind = ctx.choose('newkind', 2)
@@ -213,19 +238,40 @@ def put_harness(npend, twin=False, mutate=None):
         bert.status['current job'] = running
         done = mkjob(K('done'), ctx.choose('dkind', 2))
         bert.tasks_done.appendleft(done)
+        import sys
+        code = BertE.put_job.__code__
+
+        def tracer(frame, event, arg):
+            # interference at every source line of put_job (the property's granularity)
+            if frame.f_code is code:
+                def local(frame, event, arg):
+                    if event == 'line':
+                        sys.settrace(None)            # do not trace the engine itself
+                        try:
+                            env('line %d of put_job' % frame.f_lineno)
+                        finally:
+                            sys.settrace(tracer)
+                    return local
+                return local
+            return None
+        refused = None
         try:
-            if mutate == 'running':
-                if job == running:
-                    pass
+            sys.settrace(tracer)
+            try:
+                if mutate == 'running':
+                    if job == running:
+                        pass
+                    else:
+                        bert.put_job(job)
                 else:
                     bert.put_job(job)
-            else:
-                bert.put_job(job)
-        except RuntimeError as e:
-            if 'mutated during iteration' in str(e):
-                return dict(out='deque-mutated', bad=None)
-            raise
-        new_ok = covered(newkey.t, newkind)
+            finally:
+                sys.settrace(None)
+        except (RuntimeError, IndexError, ValueError, KeyError) as e:
+            # the webhook thread raised: the request is answered 500, i.e. the
+            # event was NOT accepted; jobs accepted earlier must still be owed
+            refused = repr(e)
+        new_ok = covered(newkey.t, newkind) if refused is None else z3.BoolVal(True)
         old_ok = z3.Implies(has_owed, covered(owed_k, owed_kind))
         cond = z3.And(new_ok, old_ok)
         if twin:
@@ -234,41 +280,98 @@ def put_harness(npend, twin=False, mutate=None):
         r, m = ctx.sat_model(z3.Not(cond))
         if r == 'sat':
             return dict(out='dropped', bad=dict(
+                refused=refused,
+                schedule=[(n, a, None if k is None else model_value(m, k), kd)
+                          for (n, a, k, kd) in state['schedule']],
                 new=model_value(m, newkey.t), newkind=newkind,
+                pending_before=[(model_value(m, k), kd) for k, kd in pend_before],
                 pending=[(model_value(m, k), kd) for k, kd in pending()],
                 consumed=[(model_value(m, k), kd) for k, kd in consumed],
                 running=(model_value(m, running.key.t), running.kind),
                 done=(model_value(m, done.key.t), done.kind)))
-        return dict(out='kept', bad=None)
+        return dict(out='kept' if refused is None else 'refused', bad=None)
     return h
 
 
 def put_concrete(bad):
-    """Replay: sequential put_job with the concrete keys (no interference) -
-    the job must be pending afterwards unless an equal job already was."""
+    """Replay on the real put_job with concrete keys and the SAME interleaving:
+    the n-th shared access / source line of put_job triggers the recorded action
+    (worker get, or another thread's put)."""
+    import sys
+    from bert_e.bert_e import BertE
     from bert_e.job import PullRequestJob, CommitJob
     repo = types.SimpleNamespace(full_name='owner/repo')
+    bert = make_berte()
+    bert.project_repo = repo
+    bert.settings['pull_request_base_url'] = 'http://x/{pr_id}'
+    bert.settings['commit_base_url'] = 'http://x/{commit_id}'
+    calls = [0]
+    schedule = {n: (a, k, kd) for (n, a, k, kd) in bad.get('schedule', [])}
+    started = []
+
+    class PR:
+        def __init__(self, key):
+            self._key = key
+
+        @property
+        def id(self):
+            env()
+            return self._key
 
     def mk(key, kind):
         if kind == 0:
-            j = PullRequestJob.__new__(PullRequestJob)
-            j.pull_request = types.SimpleNamespace(id=key)
+            return PullRequestJob(bert_e=bert, pull_request=PR(key))
+        return CommitJob(bert_e=bert, commit='%040d' % key)
+
+    def env():
+        calls[0] += 1
+        act = schedule.get(calls[0])
+        if not act:
+            return
+        if act[0] == 'get':
+            if bert.task_queue._q:
+                started.append(bert.task_queue._q.popleft())
         else:
-            j = CommitJob.__new__(CommitJob)
-            j.commit = key
-        j.project_repo = repo
-        return j
-    bert = make_berte()
-    for k, kd in bad['pending']:
-        bert.task_queue.put(mk(k, kd))
+            bert.task_queue._q.append(mk(act[1], act[2]))
+    bert.task_queue = IQueue()
+    bert.task_queue._env = lambda where: env()
+    pend = [mk(k, kd) for k, kd in bad['pending_before']]
+    for j in pend:
+        bert.task_queue._q.append(j)
     bert.status['current job'] = mk(*bad['running'])
     bert.tasks_done.appendleft(mk(*bad['done']))
-    before = [(k, kd) for k, kd in bad['pending']]
     job = mk(bad['new'], bad['newkind'])
-    bert.put_job(job)
-    pend = list(bert.task_queue.queue)
-    present = any(j is job for j in pend) or (bad['new'], bad['newkind']) in before
-    return not present
+    code = BertE.put_job.__code__
+
+    def tracer(frame, event, arg):
+        if frame.f_code is code:
+            def local(frame, event, arg):
+                if event == 'line':
+                    env()
+                return local
+            return local
+        return None
+    refused = False
+    sys.settrace(tracer)
+    try:
+        try:
+            bert.put_job(job)
+        except (RuntimeError, IndexError, ValueError, KeyError):
+            refused = True
+    finally:
+        sys.settrace(None)
+
+    def key_of(j):
+        return (j.pull_request._key, 0) if isinstance(j, PullRequestJob) else (int(j.commit), 1)
+    now = [key_of(j) for j in bert.task_queue._q]
+    begun = [key_of(j) for j in started]
+    lost = []
+    if not refused and (bad['new'], bad['newkind']) not in now + begun:
+        lost.append('new')
+    for k in bad['pending_before']:
+        if tuple(k) not in now + begun:
+            lost.append(tuple(k))
+    return bool(lost)
 
 
 def replay(data):
@@ -293,7 +396,7 @@ def check(rep):
                               'job.PullRequestJob.__eq__', 'job.CommitJob.__eq__',
                               'job.JobDispatcher.dispatch', 'job.Job.complete']
     npend = 2 if rep.tier == 'quick' else 3
-    rep.bounds = dict(pending_jobs='0..%d' % npend, interfering_operations_per_step=2,
+    rep.bounds = dict(pending_jobs='0..%d' % npend, interfering_operations_per_step='1 (quick) / 2 (thorough)', interference_points='every source line of put_job + every shared access',
                       job_classes=2, exception_kinds=KINDS)
     rep.assumptions += ['interference happens at the shared accesses of put_job (reading '
                         'task_queue.queue, each element comparison), not inside a C-level '
@@ -313,8 +416,9 @@ def check(rep):
         else:
             rep.validated += 1
     rep.sample(dict(part='worker', observed=results[0][1]))
+    maxsteps = 1 if rep.tier == 'quick' else 2
     for n in range(0, npend + 1):
-        res, st = common.explore_parallel(put_harness(n), split_depth=6)
+        res, st = common.explore_parallel(put_harness(n, maxsteps=maxsteps), split_depth=6)
         rep.add_stats(st, 'put_job step, %d pending' % n)
         seen = False
         outs = set(r['out'] for _, r in res)
@@ -327,10 +431,10 @@ def check(rep):
                 rep.cexs.append(Cex('C13', 'put_job drops a job although no equal job is pending',
                                     data, replay(data), '%r' % r['bad']))
     rep.sample(dict(part='put_job', pending=npend, note='keys symbolic, interference at each shared access'))
-    tw, st = explore(put_harness(1, twin=True))
+    tw, st = common.explore_parallel(put_harness(1, twin=True, maxsteps=1), split_depth=5)
     if not any(r['bad'] for _, r in tw):
         rep.error('reachability twin not refuted')
-    mt, st = explore(put_harness(1, mutate='running'))
+    mt, st = common.explore_parallel(put_harness(1, mutate='running', maxsteps=1), split_depth=5)
     if not any(r['bad'] for _, r in mt):
         rep.error('mutation twin (running job treated as duplicate) not refuted')
     rep.add_part('twins', paths=st.paths)
